@@ -148,7 +148,7 @@ func genC17Step(rt *rapid.T, c *C17Case) C17Step {
 		var lines []string
 		if rapid.IntRange(0, 9).Draw(rt, "stdin-empty") > 0 {
 			lines = append(lines, rapid.SampledFrom([]string{"1", "2", "3", "4", "4", "5", "x"}).Draw(rt, "first"))
-			lines = append(lines, rapid.SliceOfN(rapid.SampledFrom([]string{"1", "2", "3", "4", "y", "n", "y", "n", "backup.tar", "/tmp/x", "*.go", "src docs", "100", "mp4", "9", "", "abc"}), 0, 24).Draw(rt, "stdin")...)
+			lines = append(lines, rapid.SliceOfN(rapid.SampledFrom([]string{"1", "2", "3", "4", "y", "n", "y", "n", "y", "backup.tar", "/tmp/x", "*.go", "src docs", "100", "mp4", "9", "", "", " ", "'", "\"", "-", "*", "abc", "0", "-1", "99999999999999999999"}), 0, 24).Draw(rt, "stdin")...)
 		}
 		in := strings.Join(lines, "\n")
 		if len(lines) > 0 && rapid.Bool().Draw(rt, "nl") {
